@@ -16,7 +16,7 @@ TRUSTED = [
 ASSUMPTIONS = ["numeric tokens ≤ 8 digits and time-signature exponents < 64 (platform timedelta range, printable int size)",
                "partial: the theorem covers the exception class of parsing; rendering is exercised only"]
 RULE = ("malformed stream: sequences of line deletions, duplications, swaps, fragment insertions and character edits applied to "
-        "well-formed charts, plus texts assembled from arbitrary fragments; numeric tokens ≤ 8 digits; projection = returned / "
+        "well-formed charts, plus texts assembled from arbitrary fragments, plus every ordered pair of N lines of one tick over all eight indices (exhaustive) and sampled longer tuples; numeric tokens ≤ 8 digits; projection = returned / "
         "documented error / anything else; every returned chart and every event in it is rendered with str() and repr(); "
         "non-trivial = an input that raises, or a mutated input that still parses; distinct by text")
 
@@ -115,12 +115,31 @@ def _chunk(args):
     return res
 
 
+def enumerated(ctx):
+    """every ordered pair (and a seeded sample of triples) of N lines of one tick, all eight indices — lane lines, flags and
+    open notes mixed in any order (the code calls some of these layouts 'undefined'; they must still not leak an internal error)"""
+    import itertools
+    rng = ctx.sub("enum")
+    head = "[Song]\n{\n  Resolution = 192\n}\n[SyncTrack]\n{\n  0 = TS 4\n  0 = B 120000\n}\n[Events]\n{\n}\n[ExpertSingle]\n{\n"
+    tuples = [(a,) for a in range(8)] + list(itertools.product(range(8), repeat=2))
+    tuples += [tuple(rng.randrange(8) for _ in range(rng.choice([3, 3, 4, 5]))) for _ in range(ctx.n(60, 1500))]
+    res = []
+    for tp in tuples:
+        for lens in ((0,) * len(tp), tuple(rng.choice([0, 5, 7]) for _ in tp)):
+            body = "".join(f"  10 = N {i} {l}\n" for i, l in zip(tp, lens))
+            text = head + "  0 = N 0 0\n" + body + "  20 = N 1 0\n}\n"
+            o, rend = render_all(text)
+            res.append((text, True, o, rend))
+    assert any(r[2] == "OK" for r in res), "enumerated family never parses: the harness is wrong"
+    return res
+
+
 def slice(ctx: fw.Ctx) -> fw.Outcome:
     out = fw.Outcome(RULE)
     n = ctx.n(1500, 400_000)
     per = max(50, n // (ctx.jobs * 4))
     chunks = [(f"{ctx.pid}-{ctx.seed}-{k}", per) for k in range((n + per - 1) // per)]
-    results = [r for c in common.parallel(ctx, _chunk, chunks) for r in c]
+    results = enumerated(ctx) + [r for c in common.parallel(ctx, _chunk, chunks) for r in c]
     # model on everything in quick, on a sample in thorough
     rng = ctx.sub("sample")
     sample_idx = range(len(results)) if len(results) <= 30000 else sorted(rng.sample(range(len(results)), 30000))
